@@ -356,6 +356,9 @@ func runPerm(t *testing.T, sched simrt.Schedule, prog permProg) ([]Violation, Ru
 
 		detachedDiverged := map[string]bool{} // "topic/user": stored subscription changed behind the live topic's back
 		div := &divFilter{seen: map[string]bool{}}
+		// topics on which an injected store failure interrupted a multi-write handler: what the topic looks
+		// like after its next load from the store is still a consequence of that failure
+		faultTaint := map[string]string{}
 		w.OnIsoFire = func(p *isoProbe) {
 			if p.Sent == nil || p.Sent.Msg == nil {
 				return
@@ -418,6 +421,9 @@ func runPerm(t *testing.T, sched simrt.Schedule, prog permProg) ([]Violation, Ru
 				cause += "-p2p"
 			}
 			dv := div.filter(cacheVsStore(w, post, where), cause, detachedDiverged)
+			if failed && w.Disk.Dump() != e.DiskDump {
+				faultTaint[e.Topic] = cause
+			}
 			if failed {
 				for i := range dv {
 					if dv[i].Property == "C08" {
@@ -674,7 +680,13 @@ func runPerm(t *testing.T, sched simrt.Schedule, prog permProg) ([]Violation, Ru
 				if strings.HasPrefix(gn, "p2p") {
 					rc = "sub-p2p"
 				}
-				out = append(out, div.filter(cacheVsStore(w, sn, "after reload"), rc, detachedDiverged)...)
+				rv := div.filter(cacheVsStore(w, sn, "after reload"), rc, detachedDiverged)
+				for i := range rv {
+					if m := divTopicUser.FindStringSubmatch(rv[i].Text); m != nil && faultTaint[m[1]] != "" && rv[i].Property == "C08" {
+						rv[i].Key = "store-fault-partial-effect " + faultTaint[m[1]]
+					}
+				}
+				out = append(out, rv...)
 				continue
 			}
 			op.Isolated = true
